@@ -1,25 +1,150 @@
 /-
   The packed reversing token (board.go `Reverse`): the four fields do not overlap and every value the
   code stores is read back unchanged.  Finite facts are settled by kernel evaluation over the whole
-  (small) value range of each field.
+  (small) value range of each field; the dependence on the rest of the word is removed by two generic
+  mask identities (`field_get_set`, `field_get_other`).
 -/
 import ChessVerif.Model.Board
-
 namespace ChessVerif.Board
 open Reverse
 
-/-- the four field masks are pairwise disjoint. -/
 theorem token_masks_disjoint :
     fiftyCntMask &&& castlingChangeMask = 0 ∧ fiftyCntMask &&& epChangeMask = 0 ∧
     fiftyCntMask &&& captureMask = 0 ∧ castlingChangeMask &&& epChangeMask = 0 ∧
     castlingChangeMask &&& captureMask = 0 ∧ epChangeMask &&& captureMask = 0 := by decide
 
-/-- every field value lies inside its own mask after shifting. -/
 theorem token_fields_fit :
     (∀ c : Fin 16, (BitVec.ofNat 64 c.val <<< castlingChangeShift) &&& ~~~ castlingChangeMask = 0) ∧
     (∀ e : Fin 64, (BitVec.ofNat 64 e.val <<< epChangeShift) &&& ~~~ epChangeMask = 0) ∧
     (∀ p : Fin 7, (BitVec.ofNat 64 p.val <<< captureShift) &&& ~~~ captureMask = 0) := by decide
 
 theorem ep_roundtrip_zero : ∀ e : Fin 64, enPassantChange (setEnPassantChange 0 e.val) = e.val := by decide
+
+/-! ### generic packed-field algebra -/
+
+theorem field_get_set (r v m : BitVec 64) (h : v &&& ~~~m = 0) : ((r &&& ~~~m) ||| v) &&& m = v := by
+  apply BitVec.eq_of_getLsbD_eq
+  intro i hi
+  have := congrArg (fun x => x.getLsbD i) h
+  simp at this
+  simp
+  cases hr : r.getLsbD i <;> cases hv : v.getLsbD i <;> cases hm : m.getLsbD i <;> simp_all
+
+theorem field_get_set' (r v m : BitVec 64) : ((r &&& ~~~m) ||| v) &&& m = v &&& m := by
+  apply BitVec.eq_of_getLsbD_eq
+  intro i hi
+  simp
+  cases hr : r.getLsbD i <;> cases hv : v.getLsbD i <;> cases hm : m.getLsbD i <;> simp_all
+
+theorem field_get_other (r v m m' : BitVec 64) (hv : v &&& ~~~m = 0) (hd : m &&& m' = 0) :
+    ((r &&& ~~~m) ||| v) &&& m' = r &&& m' := by
+  apply BitVec.eq_of_getLsbD_eq
+  intro i hi
+  have h1 := congrArg (fun x => x.getLsbD i) hv
+  have h2 := congrArg (fun x => x.getLsbD i) hd
+  simp at h1 h2
+  simp
+  cases hr : r.getLsbD i <;> cases hv : v.getLsbD i <;> cases hm : m.getLsbD i <;> cases hm' : m'.getLsbD i <;> simp_all
+
+/-! ### what each field stores is read back -/
+
+theorem fifty_fin : ∀ x : Fin 256,
+    wrapS8 ((((BitVec.ofInt 64 ((x.val : Int) - 128)) <<< fiftyCntShift) &&& fiftyCntMask) >>> fiftyCntShift).toNat
+      = (x.val : Int) - 128 := by
+  decide +kernel
+
+theorem castling_fin : ∀ c : Fin 16,
+    BitVec.ofNat 4 (((BitVec.ofNat 64 c.val <<< castlingChangeShift) >>> castlingChangeShift).toNat % 256) = BitVec.ofNat 4 c.val := by
+  decide
+
+theorem ep_fin : ∀ e : Fin 64, ((BitVec.ofNat 64 e.val <<< epChangeShift) >>> epChangeShift).toNat = e.val := by
+  decide
+
+theorem capture_fin : ∀ p : Fin 7,
+    Piece.ofIx (((BitVec.ofNat 64 p.val <<< captureShift) >>> captureShift).toNat % 256) = Piece.ofIx p.val := by
+  decide
+
+/-- the int8 clock (negative values included: the Go conversion sign-extends into the other fields,
+    which is why `setFiftyCnt` has to be — and is — the first setter called). -/
+theorem fiftyCnt_set (r : Reverse) (fc : Int) (h1 : -128 ≤ fc) (h2 : fc ≤ 127) :
+    fiftyCnt (setFiftyCnt r fc) = fc := by
+  unfold fiftyCnt setFiftyCnt
+  rw [field_get_set']
+  have := fifty_fin ⟨(fc + 128).toNat, by omega⟩
+  have e : (((fc + 128).toNat : Nat) : Int) - 128 = fc := by omega
+  simp only [e] at this
+  exact this
+
+theorem castlingChange_set (r : Reverse) (c : Castles) : castlingChange (setCastlingChange r c) = c := by
+  unfold castlingChange setCastlingChange
+  rw [field_get_set _ _ _ (token_fields_fit.1 ⟨c.toNat, c.isLt⟩)]
+  have := castling_fin ⟨c.toNat, c.isLt⟩
+  simpa using this
+
+theorem enPassantChange_set (r : Reverse) (e : Nat) (h : e < 64) : enPassantChange (setEnPassantChange r e) = e := by
+  unfold enPassantChange setEnPassantChange
+  rw [field_get_set _ _ _ (token_fields_fit.2.1 ⟨e, h⟩)]
+  exact ep_fin ⟨e, h⟩
+
+theorem capture_set (r : Reverse) (p : Piece) : capture (setCapture r p) = p := by
+  unfold capture setCapture
+  rw [field_get_set _ _ _ (token_fields_fit.2.2 ⟨p.toNat, p.toNat_lt⟩)]
+  have := capture_fin ⟨p.toNat, p.toNat_lt⟩
+  simpa using this
+
+/-! ### setting one field leaves the others alone (the three setters called after `setFiftyCnt`) -/
+
+theorem and_comm_zero {a b : BitVec 64} (h : a &&& b = 0) : b &&& a = 0 := by rw [BitVec.and_comm]; exact h
+
+theorem fiftyCnt_setCastling (r : Reverse) (c : Castles) : fiftyCnt (setCastlingChange r c) = fiftyCnt r := by
+  unfold fiftyCnt setCastlingChange
+  rw [field_get_other _ _ _ _ (token_fields_fit.1 ⟨c.toNat, c.isLt⟩) (and_comm_zero token_masks_disjoint.1)]
+theorem fiftyCnt_setCapture (r : Reverse) (p : Piece) : fiftyCnt (setCapture r p) = fiftyCnt r := by
+  unfold fiftyCnt setCapture
+  rw [field_get_other _ _ _ _ (token_fields_fit.2.2 ⟨p.toNat, p.toNat_lt⟩) (and_comm_zero token_masks_disjoint.2.2.1)]
+theorem fiftyCnt_setEp (r : Reverse) (e : Nat) (h : e < 64) : fiftyCnt (setEnPassantChange r e) = fiftyCnt r := by
+  unfold fiftyCnt setEnPassantChange
+  rw [field_get_other _ _ _ _ (token_fields_fit.2.1 ⟨e, h⟩) (and_comm_zero token_masks_disjoint.2.1)]
+
+theorem castlingChange_setCapture (r : Reverse) (p : Piece) : castlingChange (setCapture r p) = castlingChange r := by
+  unfold castlingChange setCapture
+  rw [field_get_other _ _ _ _ (token_fields_fit.2.2 ⟨p.toNat, p.toNat_lt⟩) (and_comm_zero token_masks_disjoint.2.2.2.2.1)]
+theorem castlingChange_setEp (r : Reverse) (e : Nat) (h : e < 64) :
+    castlingChange (setEnPassantChange r e) = castlingChange r := by
+  unfold castlingChange setEnPassantChange
+  rw [field_get_other _ _ _ _ (token_fields_fit.2.1 ⟨e, h⟩) (and_comm_zero token_masks_disjoint.2.2.2.1)]
+
+theorem capture_setCastling (r : Reverse) (c : Castles) : capture (setCastlingChange r c) = capture r := by
+  unfold capture setCastlingChange
+  rw [field_get_other _ _ _ _ (token_fields_fit.1 ⟨c.toNat, c.isLt⟩) token_masks_disjoint.2.2.2.2.1]
+theorem capture_setEp (r : Reverse) (e : Nat) (h : e < 64) : capture (setEnPassantChange r e) = capture r := by
+  unfold capture setEnPassantChange
+  rw [field_get_other _ _ _ _ (token_fields_fit.2.1 ⟨e, h⟩) token_masks_disjoint.2.2.2.2.2]
+
+theorem enPassantChange_setCastling (r : Reverse) (c : Castles) :
+    enPassantChange (setCastlingChange r c) = enPassantChange r := by
+  unfold enPassantChange setCastlingChange
+  rw [field_get_other _ _ _ _ (token_fields_fit.1 ⟨c.toNat, c.isLt⟩) token_masks_disjoint.2.2.2.1]
+theorem enPassantChange_setCapture (r : Reverse) (p : Piece) :
+    enPassantChange (setCapture r p) = enPassantChange r := by
+  unfold enPassantChange setCapture
+  rw [field_get_other _ _ _ _ (token_fields_fit.2.2 ⟨p.toNat, p.toNat_lt⟩) (and_comm_zero token_masks_disjoint.2.2.2.2.2)]
+
+/-- The token exactly as `MakeMove` builds it (clock first, then castling delta, captured piece,
+    en-passant delta, starting from any word): every getter returns what was stored — for all int8
+    clocks (negative ones included), all 4-bit castling deltas, all pieces and all 6-bit ep deltas. -/
+theorem token_fields_roundtrip (r0 : Reverse) (fc : Int) (cc : Castles) (p : Piece) (e : Nat)
+    (h1 : -128 ≤ fc) (h2 : fc ≤ 127) (he : e < 64) :
+    let r := (((r0.setFiftyCnt fc).setCastlingChange cc).setCapture p).setEnPassantChange e
+    r.fiftyCnt = fc ∧ r.castlingChange = cc ∧ r.capture = p ∧ r.enPassantChange = e := by
+  refine ⟨?_, ?_, ?_, ?_⟩
+  · rw [fiftyCnt_setEp _ _ he, fiftyCnt_setCapture, fiftyCnt_setCastling, fiftyCnt_set _ _ h1 h2]
+  · rw [castlingChange_setEp _ _ he, castlingChange_setCapture, castlingChange_set]
+  · rw [capture_setEp _ _ he, capture_set]
+  · rw [enPassantChange_set _ _ he]
+
+/-- the null-move token: only the ep field is written. -/
+theorem token_null_roundtrip (e : Nat) (he : e < 64) : enPassantChange (setEnPassantChange 0 e) = e :=
+  enPassantChange_set _ _ he
 
 end ChessVerif.Board
